@@ -106,6 +106,7 @@ struct Shared {
     flush_ok: u64,     // number of poll_flush calls answered Ready(Ok)
     zero_writes: u64,  // number of poll_write calls (with a non-empty buffer) answered Ready(Ok(0))
     eof_reads: u64,    // number of poll_read calls answered Ready(Ok) with zero bytes
+    data_reads: u64,   // number of poll_read calls answered with data (even ones initialise the unfilled region)
 }
 
 struct ScriptIo(Rc<RefCell<Shared>>);
@@ -122,7 +123,17 @@ impl AsyncRead for ScriptIo {
                 if n == 0 {
                     s.eof_reads += 1;
                 }
-                buf.put_slice(&bs[..n]);
+                // every other data read behaves like an adapter/TLS-style reader: it zero-initialises
+                // the whole unfilled region first and then advances by the bytes it really has
+                // (ReadBuf contract: filled <= initialized; only filled() carries data)
+                s.data_reads += 1;
+                if s.data_reads % 2 == 0 {
+                    let un = buf.initialize_unfilled();
+                    un[..n].copy_from_slice(&bs[..n]);
+                    buf.advance(n);
+                } else {
+                    buf.put_slice(&bs[..n]);
+                }
                 s.rin.extend_from_slice(&bs[..n]);
                 if n < bs.len() {
                     s.rscript.push_front(R::Data(bs[n..].to_vec()));
